@@ -64,6 +64,30 @@ def run(tier):
                  id=2 * i + 1, want=[])
         esc_cases += [a, b]
         esc_meta.append((nodes, lib_nodes))
+    # every element kind x every way data is written x breakout payloads: a hostile value against a benign value of
+    # the same length, one statement per template
+    E, T = talgen.Elem, talgen.Text
+    payloads = ['"; </script><img onerror=x>', "</style><b>x</b>", "</textarea><i>x</i>", "</title><u>x</u>", "<b>bold</b>",
+                '" onmouseover="x', "'><i>x</i>", "Fish &amp; Chips<b>x</b>", "--><b>x</b>", "]]><b>x</b>", "</pre><hr>", "</option><p>"]
+    kinds = ["script", "style", "textarea", "title", "pre", "option", "p", "a", "td", "button", "select", "h1", "noscript", "iframe", "xmp"]
+    att_names = ["onclick", "onmouseover", "href", "src", "style", "title", "value", "class", "data-x", "action", "srcdoc"]
+    sweep = []
+    for tag in kinds:
+        for st in ("content", "content-text", "replace", "replace-text"):
+            sweep.append((tag, {st.split("-")[0]: ("text v" if st.endswith("text") else "v")}))
+        sweep.append((tag, {"attributes": "; ".join("%s v" % a for a in rng.sample(att_names, 3))}))
+        sweep.append((tag, {"content": "string:a ${v} b", "attributes": "%s string:x${v}" % rng.choice(att_names)}))
+    if not thorough:
+        sweep = [x for x in sweep if x[0] in ("script", "style", "textarea", "title")] + rng.sample(sweep, 20)
+    base = len(esc_cases)
+    for j, (tag, tal) in enumerate(sweep):
+        for pl in (payloads if thorough else rng.sample(payloads, 4) + [p_ for p_ in payloads if tag in p_]):
+            nodes = [E("div", children=[E(tag, attrs=[("id", "k")], tal=dict(tal), children=[T("x = 1;")]), T(" after")])]
+            case = {"main": talgen.serialize(nodes), "lib": None, "options": tc.OPTIONS_SPEC, "want": [], "allow_python": 0}
+            a = dict(case, ctx={"v": ["s", "".join("abcdefgh"[i % 8] for i in range(len(pl)))]}, id=len(esc_cases))
+            b = dict(case, ctx={"v": ["s", pl]}, id=len(esc_cases) + 1)
+            esc_cases += [a, b]
+            esc_meta.append((nodes, None))
     esc_res = tc.run_cases(esc_cases)
     esc_stats = {"pairs": 0, "skeleton_equal": 0, "both_raise": 0, "dynamic_insertions": 0}
     progs, prog_src = [], []
